@@ -211,7 +211,6 @@ func (rs *refStream) consts(bs ...byte) {
 	rs.after("Write")
 }
 
-
 func globalAtom(c *dom.Ctx, name string, w int) dom.BV { return c.Atom("Init(global "+name+")", w) }
 
 // refCommon emits the start/end/exec words and the body.
